@@ -186,6 +186,17 @@ def setup():
              'a', 'k', 'method')
   sh.cname, sh.reg, sh.call, sh.orig = 'KM.meth', 'register', None, KM
   SHAPES['KM.meth'] = sh
+  # a second class of the same module with a registered method of the same name (registered later): its bindings
+  # are its own, KM.meth keeps receiving KM.meth's
+  exec('class KM2:\n'
+       '  def __init__(self):\n    pass\n'
+       '  def meth(self, a="da2", b="db2", *, k="dk2"):\n    return "ret2"\n', ns)
+  KM2 = ns['KM2']
+  KM2.__module__ = 'c01probes'
+  KM2.meth.__module__ = 'c01probes'
+  KM2.meth.__qualname__ = 'KM2.meth'
+  gin.register(KM2.meth)
+  gin.register(KM2)
 
   @gin.configurable(module='c01probes')
   def consumer(fn=None):
